@@ -329,7 +329,6 @@ def fresh_alphabet_sequences(ctx: Ctx):
     the names come from a counter that every call starts at 0)."""
     rng = ctx.rng
     used: set = set()
-    history: list = []
     failing: list = []
     for _ in range(ctx.budget(700, 12000)):
         prog = S.gen_program(rng, used, "compile", _rewrite)
@@ -338,8 +337,7 @@ def fresh_alphabet_sequences(ctx: Ctx):
             continue
         steps = prog["steps"]
         used.update(S.touched_alphabets(steps))
-        n_before = len(history)
-        history.extend(S.clean(steps))
+        CALLS.extend(S.clean(steps))
         bad = S.judge_steps(steps, language=_language)
         ctx.stat("sequence")
         ctx.stat(f"seq_steps_{len(steps)}")
@@ -349,7 +347,7 @@ def fresh_alphabet_sequences(ctx: Ctx):
         ctx.case(json.dumps(S.clean(steps), sort_keys=True) if len(steps) >= 2 else None)
         if bad:
             ctx.stat("seq_failing_program")
-            failing.append((prog, bad, n_before))
+            failing.append((prog, bad, len(CALLS)))
             continue
         for st in steps:
             if st["op"] == "compile" and "_nfa" in st:
@@ -357,7 +355,7 @@ def fresh_alphabet_sequences(ctx: Ctx):
                                  st["re"], st["input_symbols"], ("ok", st["_nfa"]), False)
         if ctx.evaluations % 97 == 5:
             ctx.sample(dict(sequence=S.clean(steps)))
-    S.report_failing(ctx, "C10", failing, history)
+    S.report_failing(ctx, failing)
 
 
 def _rewrite(rng, e):
@@ -373,61 +371,22 @@ def _rewrite(rng, e):
 
 
 def settle_replays(ctx: Ctx):
-    """run.py prints the failure whose replay is shortest.  A single-case replay ({regex, alphabet}) only stands on
-    its own if the case also fails as the FIRST call of a fresh interpreter; otherwise the failure depends on calls
-    made before it, and its replay becomes the recorded calls (those over the same alphabet if that suffices, else
-    all of them) followed by the case."""
-    def size(f):
-        return len(json.dumps(f["replay"], default=repr))
+    """run.py prints the failure whose replay is shortest.  A single-case replay ({regex, alphabet}) — or a program of
+    calls — only stands on its own if it also fails as the FIRST thing a fresh interpreter does; otherwise the failure
+    depends on calls made before it, and its replay becomes recorded calls of the run (the last ones over the same
+    alphabet / expression if that suffices, else all of those, else all) followed by it — harness/fresh.py."""
+    from harness import fresh
 
     def as_step(rp):
         # a failing case is a rendering of its AST over an alphabet containing its literals: it must compile
         return dict(op="compile", re=rp["regex"], input_symbols=rp.get("input_symbols"),
                     valid=True if rp.get("ast") is not None else None, ast=rp.get("ast"))
 
-    def with_history(f, confirm: bool):
-        rp = f["replay"]
-        log = CALLS[:max(f.get("_calls", len(CALLS) + 1) - 1, 0)]
-        key = S.touched_alphabets([as_step(rp)])[0]
-        same = [c for c in log if S.touched_alphabets([c])[0] == key]
-        chosen = None
-        for cand in ([same, log] if confirm else [same]):
-            steps = cand + [as_step(rp)]
-            if not confirm or S.confirm_fresh("C10", steps) is True:
-                chosen = steps
-                break
-        f["settled"] = True
-        if chosen is None:
-            chosen = log + [as_step(rp)]
-            f["what"] += " (observed in this run; NOT reproduced in a fresh interpreter from the recorded calls)"
-            ctx.stat("history_failure_not_reproduced_fresh")
-        else:
-            f["what"] = f"after {len(chosen) - 1} earlier call(s) of this run over the same alphabet: " + f["what"]
-        f["replay"] = dict(kind="sequence", steps=S.R_json(chosen), failing_step=len(chosen) - 1,
-                           detail={k: rp[k] for k in ("word", "denoted") if k in rp})
+    def make_replay(steps, rp, n_history):
+        return dict(kind="sequence", steps=steps, failing_step=n_history + rp.get("failing_step", 0),
+                    detail=rp.get("detail") or {k: rp[k] for k in ("word", "denoted") if k in rp})
 
-    history_dependent = 0
-    for _ in range(8):
-        cands = [f for f in ctx.prop_fails if f["key"] is None]
-        if not cands:
-            return
-        f = min(cands, key=size)
-        if f.get("settled") or f["replay"].get("kind") == "sequence":
-            return
-        if S.confirm_fresh("C10", [as_step(f["replay"])]) is True:
-            f["settled"] = True
-            return
-        ctx.stat("failure_depends_on_call_history")
-        history_dependent += 1
-        with_history(f, confirm=True)
-        if history_dependent >= 2:
-            # the run's failures depend on the call history: give every remaining single case its history (unconfirmed)
-            for g in ctx.prop_fails:
-                if g["key"] is None and not g.get("settled") and g["replay"].get("kind") != "sequence":
-                    with_history(g, confirm=False)
-            ctx.note("failing cases of this run do not fail as the first call of a fresh interpreter: they depend on the "
-                     "calls made before them; their replays are the recorded calls over the same alphabet + the case")
-            return
+    fresh.settle_replays(ctx, "C10", CALLS, as_step, S.keys_of, make_replay)
 
 
 def run(ctx: Ctx):
@@ -534,7 +493,7 @@ def replay(ctx: Ctx, path: str) -> int:
     rp = data.get("replay", data)
     if rp.get("kind") == "sequence":
         for i, what, _detail in judge_program_json(json.dumps(rp["steps"])):
-            ctx.prop_fail(f"after {S.describe(rp['steps'], i) if i <= 4 else str(i) + ' earlier calls'}: {what}", rp, None)
+            ctx.prop_fail(f"after {S.describe(rp['steps'], i)}: {what}", rp, None)
     else:
         e = to_ast(rp.get("ast")) if rp.get("ast") is not None else None
         check_case(ctx, rp["regex"], rp.get("input_symbols"), e, "replay")
